@@ -2,7 +2,7 @@
 // Differential (no reference needed): same accept vectors over U(T) in default and strict mode, same hash256.
 import { Reporter, TIER, SEED, valueKind, sha, loadKnownFindings } from "./common.mjs";
 import { sweepPrograms } from "./sweep.mjs";
-import { rewriteVariants, REWRITES, STYLES } from "./rewrites.mjs";
+import { droppedFromBases, rewriteVariants, REWRITES, STYLES } from "./rewrites.mjs";
 import { renderProgram, skeleton, render } from "./spec.mjs";
 import { normaliseProgram } from "./normalise.mjs";
 import { Prog } from "./ref.mjs";
@@ -177,6 +177,8 @@ export async function run() {
       base_programs_not_compiled: stats.notCompiledBase,
       variants_not_compiled_by_beff: stats.variantsNotCompiled || 0,
       variants_not_compiled_samples: notCompiledSamples,
+      parsers_dropped_from_bases_because_beff_does_not_compile_them: droppedFromBases.parsers,
+      dropped_samples: droppedFromBases.samples,
     },
     assumptions: ["the rewrite catalogue is meaning-preserving under TypeScript's semantics (engines/src/rewrites.mjs)", "structkey.mjs classifies hash differences only (identity of findings), it does not decide them"],
   });
